@@ -1,24 +1,25 @@
-\* Expiration model, edge cover replayed on the real FSM: <= 2 entries after the
-\* CreateSession over {line, config 900 s, config 10 s}.
+\* Encoding migration, edge cover replayed on the real FSM (thorough tier of C07): as
+\* FSM_mig.cfg with one snapshot, no failed Persist, compaction time 64 only (48,725 states).
+\* EmitEdge prints the history of every generated transition.
 SPECIFICATION Spec
 CONSTANTS
-    Alphabet <- AlphaExpS
-    TS = {0, 30}
-    Nows = {95}
-    Prelude <- PreludeSess
+    Alphabet <- AlphaMig
+    TS = {0, 6}
+    Nows = {64}
+    Prelude <- PreludeReg
     DefaultExp = 60
     Grace = 1
-    MaxLen = 3
+    MaxLen = 6
     MaxGaps = 0
-    MaxSnaps = 2
+    MaxSnaps = 1
     MaxFails = 0
     MaxRestarts = 1
     MaxRestores = 1
-    MaxPanics = 0
+    MaxPanics = 2
     FixF2 = TRUE
     FixF3 = TRUE
-    InitEnc = "proto"
-    MaxMigrations = 0
+    InitEnc = "json"
+    MaxMigrations = 1
 VIEW view
 INVARIANTS
     TypeOK
